@@ -18,6 +18,8 @@ BOUNDARY_PROGRAMS = [
     "CONSTANT(c, 65535)\nOPCODE(c)\nSET(R1, c)\n", "CALL(R12, f)\nHALT()\nLABEL(f)\nRETURN(R12, R13)\n",
     "print(\"a\\tb\")\nprintln(\"\")\nprint_reg(R0)\n", "SET(R1, 'a')\nSET(R2, '\\n')\n", "NOT(R1, Rt)\n",
     "DLABEL(d)\nLP_STRING(\"hi\\n\")\nSET(R1, d)\nLOAD(R2, 0, R1)\n", "LABEL(a)\nBR(a)\n",
+    "DLABEL(d)\nLP_STRING(\"\\777\\400\\377\\x80\")\nSET(R1, d)\nLOAD(R2, 1, R1)\n", "CONSTANT(w, 0x0123)\nOPCODE(w)\n",
+    "CONSTANT(m, 64)\nCONSTANT(n, m)\nINC(R1, n)\nDSKIP(n)\n", "CONSTANT(w, 0x3180)\nCONSTANT(v, w)\nOPCODE(v)\n",
 ]
 
 
